@@ -186,6 +186,8 @@ struct snap { unsigned long t0, t1; long frame; int in_handler; };
 /* event kinds seen by the handler */
 enum { EVK_CAPTION, EVK_TTX_PAGE, EVK_TRIGGER, EVK_NETWORK, EVK_NETWORK_ID, EVK_ASPECT, EVK_PROG_INFO, EVK_OTHER, NEVK };
 static const char *const evk_name[NEVK] = { "caption", "ttx_page", "trigger", "network", "network_id", "aspect", "prog_info", "other" };
+static const char *const evk_gap[NEVK] = { "gap:caption-event", "gap:ttx_page-event", "gap:trigger-event", "gap:network-event", "gap:network_id-event",
+	"gap:aspect-event", "gap:prog_info-event", "gap:other-event" };
 static const char *const evk_phase[NEVK] = {
 	"vbi_fetch_cc_page(CAPTION-handler)", "vbi_fetch_cc_page(TTX_PAGE-handler)", "vbi_fetch_cc_page(TRIGGER-handler)",
 	"vbi_fetch_cc_page(NETWORK-handler)", "vbi_fetch_cc_page(NETWORK_ID-handler)", "vbi_fetch_cc_page(ASPECT-handler)",
@@ -205,6 +207,7 @@ static struct {
 	struct span *dec; long n_dec;              /* vbi_decode call windows */
 	struct { uint8_t f, b[2]; } *capt;          /* caption line fed in frame f (field 1/2, 0 none) */
 	struct span *hand; long n_hand, cap_hand;   /* handler windows */
+	uint8_t *hand_kind;                         /* event kind of each handler window */
 	vbi_page pg_a;                              /* A's fetch buffer */
 	long a_frame_now;
 	long ev_count[NEVK], handler_fetch_fail;
@@ -299,7 +302,7 @@ static void a_handler(vbi_event *ev, void *ud)
 	progress(0, evk_phase[k]);
 	a_snapshot(1 + k);
 	progress(0, "vbi_decode");
-	if (A.n_hand < A.cap_hand) { A.hand[A.n_hand].c = c; A.hand[A.n_hand].r = tick(); A.n_hand++; }
+	if (A.n_hand < A.cap_hand) { A.hand[A.n_hand].c = c; A.hand[A.n_hand].r = tick(); A.hand_kind[A.n_hand] = (uint8_t)k; A.n_hand++; }
 }
 
 /* ---- EIA-608 traffic generator (independent of the library) ---- */
@@ -845,16 +848,17 @@ static const char *rows_text(const struct pgsum *s, const struct pgsum *ref)
 	return b;
 }
 
-static int where_is(unsigned long t, const struct span *v, long n)
+static long which_span(unsigned long t, const struct span *v, long n)
 {
-	/* is tick t inside some [c,r]? spans are ordered */
+	/* index of the span [c,r] tick t is inside, -1 if none; spans are ordered */
 	long lo = 0, hi = n - 1;
 	while (lo <= hi) {
 		long m = (lo + hi) / 2;
-		if (v[m].r < t) lo = m + 1; else if (v[m].c > t) hi = m - 1; else return 1;
+		if (v[m].r < t) lo = m + 1; else if (v[m].c > t) hi = m - 1; else return m;
 	}
-	return 0;
+	return -1;
 }
+static int where_is(unsigned long t, const struct span *v, long n) { return which_span(t, v, n) >= 0; }
 
 static int analyse_a(void)
 {
@@ -865,7 +869,7 @@ static int analyse_a(void)
 	for (me = 0; me < 2; me++) {
 		for (i = 0; i < A.n_fr[me]; i++) {
 			struct fetch_rec *fr = &A.fr[me][i];
-			long lo, hi, jlo, jhi, j;
+			long lo, hi, jlo, jhi, j, hand_idx;
 			int p = fr->pgno - 1, ok = 0, ncand = 0, match = 0, in_dec, in_hand;
 			const struct pgsum *first = NULL, *last = NULL;
 			if (fr->pgno < 1 || fr->pgno > 8) {
@@ -894,12 +898,13 @@ static int analyse_a(void)
 			if (!ok && jhi > jlo && fr->s.h == A.blank[p].h) { ok = 1; blank_rule++; }
 			if (ncand > 1) multi_cand++;
 			in_dec = where_is(fr->c, A.dec, A.n_dec) || where_is(fr->r, A.dec, A.n_dec) || jhi > jlo;
-			in_hand = where_is(fr->r, A.hand, A.n_hand);
+			hand_idx = which_span(fr->r, A.hand, A.n_hand);
+			in_hand = hand_idx >= 0;
 			if (in_dec) overlap_fetch++;
 			if (in_hand) fetch_in_handler_gap++;
 			if (in_dec || in_hand)
 				SIG("a:fetch thr=%c pg=%d site=%s cand=%d got=%s", "BC"[me], fr->pgno,
-				       in_hand ? "event-gap" : "decode", ncand > 3 ? 3 : ncand,
+				       in_hand ? (A.hand_kind ? evk_gap[A.hand_kind[hand_idx]] : "event-gap") : "decode", ncand > 3 ? 3 : ncand,
 				       !ok ? "none" : match == 0 ? "blank" : ncand <= 1 ? "only" : match == 1 ? "old" : "new");
 			if (!ok) {
 				const struct pgsum *s0 = state_at(p, jlo), *s1 = state_at(p, jhi);
@@ -1035,6 +1040,7 @@ static int run_a(struct vf_rng *r)
 	A.capt = xcalloc((size_t)frames, sizeof *A.capt);
 	A.cap_hand = frames * 7 + 64;
 	A.hand = xcalloc((size_t)A.cap_hand, sizeof *A.hand);
+	A.hand_kind = xcalloc((size_t)A.cap_hand, 1);
 	A.cap_fr = frames * 3 + 64;
 	A.fr[0] = xcalloc((size_t)A.cap_fr, sizeof **A.fr);
 	A.fr[1] = xcalloc((size_t)A.cap_fr, sizeof **A.fr);
@@ -1073,7 +1079,7 @@ static int run_a(struct vf_rng *r)
 		  T.headers, T.hdr_parity + T.hdr_nopgno, T.gap_den, T.ttx_den, T.dmg_den);
 	vf_phase("vbi_decoder_delete");
 	vbi_decoder_delete(A.vbi);
-	free(A.snaps); free(A.dec); free(A.capt); free(A.hand); free(A.fr[0]); free(A.fr[1]); free(A.sw);
+	free(A.snaps); free(A.dec); free(A.capt); free(A.hand); free(A.hand_kind); free(A.fr[0]); free(A.fr[1]); free(A.sw);
 	{ int q; for (q = 0; q < 8; q++) free(A.chg[q]); }
 	return p;
 }
